@@ -128,11 +128,76 @@ REQUIRE = {   # vacuity guard: what a run of the check must have exercised at le
 }
 
 
+STD_READERS = ["bufio", "bufio16", "bytes.Reader", "bytes.Buffer", "strings.Reader", "limited", "rich"]
+
+
+def reader_variants(run, progs, every):
+    """Generation only: every `every`-th reading program again with ReadPacket given a standard reader type (a *bufio.Reader of
+    default or minimal size on top of the scripted transport, a bytes.Reader / bytes.Buffer / strings.Reader / io.LimitedReader
+    holding the bytes) or the scripted reader with the io.ByteReader method set; sequences additionally get a seeded chunk plan
+    under the bufio readers.  The calls through standard readers are judged as a whole (Trace!ReadWrapped)."""
+    import copy
+    out = []
+    rng = run.rng
+    k = 0
+    for i, pr in enumerate(progs):
+        if pr.get("fam") not in ("frames", "seq", "first", "sched", "fault", "mutants", "random"):
+            continue
+        streams = [st for st in pr["steps"] if st.get("op") == "Stream"]
+        if not streams or any("key" in st or "from" in st for st in streams) or (i + run.seed) % every:
+            continue
+        kind = STD_READERS[(k + run.seed) % len(STD_READERS)]
+        k += 1
+        cp = copy.deepcopy(pr)
+        for st in cp["steps"]:
+            if st.get("op") != "Stream":
+                continue
+            plan = st.get("reader")
+            if kind == "rich":
+                st.setdefault("reader", {})["rich"] = True
+                continue
+            kd = kind
+            if not kd.startswith("bufio") and plan and plan.get("fate") == "err":
+                kd = "bufio16"                       # the readers that hold the bytes themselves can only end, not fail
+            st["key"] = kd
+            if kd.startswith("bufio") and not plan and pr.get("fam") in ("seq", "first") and len(st.get("bytes", [])) > 2:
+                n, chunks = len(st["bytes"]), []
+                while n > 0:
+                    c = min(n, rng.randrange(1, 8)); chunks.append(c); n -= c
+                st["reader"] = {"chunks": chunks, "fate": "eof", "with": bool(rng.randrange(2))}
+        cp["meta"] = dict(cp.get("meta") or {}, reader=kind)
+        out.append(cp)
+    return out
+
+
+def rich_writer_variants(run, progs, every):
+    """Generation only: every `every`-th writing program again with a writer that also offers WriteByte / WriteString / ReadFrom."""
+    import copy
+    out = []
+    for i, pr in enumerate(progs):
+        if pr.get("fam") not in ("wfault", "build", "api") or (i + run.seed) % every:
+            continue
+        if not any(st.get("op") == "WriteTo" for st in pr["steps"]):
+            continue
+        cp = copy.deepcopy(pr)
+        for st in cp["steps"]:
+            if st.get("op") == "WriteTo":
+                w = st.setdefault("writer", {"kind": "all", "k": 0})
+                w["rich"] = True
+        cp["meta"] = dict(cp.get("meta") or {}, writer="rich")
+        out.append(cp)
+    return out
+
+
 def check(run, prop, claims, fams, rule, assumptions, level=LEVEL_MC, keep=None, drive_kw=None, extra_cov=None, models=None,
-          extra_progs=None, randoms=0, histories=0, xproc=0):
+          extra_progs=None, randoms=0, histories=0, xproc=0, std_readers=0, rich_writers=0, conc_apart=False):
     if models:
         model_theorems(run, models)
     progs = gather(run, fams) + (extra_progs or [])
+    if std_readers:
+        progs += reader_variants(run, progs, std_readers)
+    if rich_writers:
+        progs += rich_writer_variants(run, progs, rich_writers)
     if randoms:
         progs += random_mutants(run, frame_bytes(progs), randoms)
     if histories:
@@ -147,7 +212,21 @@ def check(run, prop, claims, fams, rule, assumptions, level=LEVEL_MC, keep=None,
                 for r in (1, 2):
                     cp = dict(pr); cp["id"] = "%s#r%d" % (pr["id"], r); cp["steps"] = [s for s in pr["steps"] if s["op"] in ("New", "Call", "Pub", "WriteTo")][:-1]
                     copies.append(cp)
-    shards = run.drive(progs + copies, "t", **(drive_kw or {}))
+    conc = [pr for pr in progs if pr.get("fam") == "conc"] if conc_apart else []
+    if conc:        # the concurrency configurations run in a driver built with -race on all processors, the rest as usual
+        rest = [pr for pr in progs if pr.get("fam") != "conc"]
+        import copy
+        fast = copy.deepcopy(conc)          # without -race, on all processors, many more repetitions: the interleavings themselves
+        for pr in fast:
+            pr["id"] += "#fast"
+            for st in pr["steps"]:
+                if st.get("op") == "Conc":
+                    st["n"] = st.get("n", 200) * 25
+        shards = (run.drive(rest + copies, "t", **(drive_kw or {})) + run.drive(conc, "u", race=True, workers=4, timeout_ms=60000)
+                  + run.drive(fast, "w", procs_all=True, workers=4, timeout_ms=60000))
+        progs = progs + fast
+    else:
+        shards = run.drive(progs + copies, "t", **(drive_kw or {}))
     if copies:
         shards = shards + [xproc_trace(run, shards)]
     notes, events = run.validate(shards, "t")
@@ -257,12 +336,12 @@ def c02(run):
 
 
 def c03(run):
-    return check(run, "C03", {"C03"}, [("frames", TYPE_PARTS)] + ([("huge", ONE_PART)] if run.tier == "thorough" else []),
+    return check(run, "C03", {"C03"}, [("frames", TYPE_PARTS), ("own", ONE_PART)] + ([("huge", ONE_PART)] if run.tier == "thorough" else []),
                  "one program per abstract wire packet enumerated by TLC (family frames): 15 types x property subsets/orders/"
                  "explicit zeros x short forms x boundary string lengths; each frame is produced by the reference encoder, read by "
                  "ReadPacket, and the accessor values are compared by TLC with ObsOfWire(StrictDecode(frame))",
                  ["D3: an explicitly transmitted zero-valued property reads as zero",
-                  "only frames that are FullyValid (structure + semantic rules of Appendix C) must be accepted"])
+                  "only frames that are FullyValid (structure + semantic rules of Appendix C) must be accepted"], std_readers=4)
 
 
 def c04(run):
@@ -271,7 +350,7 @@ def c04(run):
                  "lengths), all valid frames, and bodies given directly to UnmarshalBinary of all 16 types; a Panic event or a "
                  "result that is not exactly (packet, nil) or (nil, error) is a violation",
                  ["D9: packets left behind by a failed UnmarshalBinary are values a program can hold"],
-                 randoms=20000 if run.tier == "quick" else 400000)
+                 randoms=20000 if run.tier == "quick" else 400000, std_readers=10)
 
 
 DECODE_STEPS_CFG = ("SPECIFICATION Spec\nINVARIANT WorkBound\nINVARIANT OffsetInData\nINVARIANT BudgetImplied\nPROPERTY ErrorIsSticky\n"
@@ -280,13 +359,13 @@ DECODE_STEPS_CFG = ("SPECIFICATION Spec\nINVARIANT WorkBound\nINVARIANT OffsetIn
 
 def c05(run):
     big = run.tier == "thorough"
-    return check(run, "C05", {"C05"}, [("mutants", TYPE_PARTS), ("own", ONE_PART), ("many", ONE_PART)],
+    return check(run, "C05", {"C05"}, [("mutants", TYPE_PARTS), ("own", ONE_PART), ("many", ONE_PART), ("seqlong", ONE_PART)],
                  models=[("DecodeSteps", DECODE_STEPS_CFG % ((12, 6, 3) if big else (7, 4, 2)))], rule=
                  "the C04 inputs; a decode that exceeds the step budget 4*len+64 (hook), the time/memory watchdog, or returns "
                  "a packet with more list elements than the frame has bytes is a violation; DecodeSteps.tla model-checks that the "
                  "guarded reader with leave-on-error loops terminates within the bound for every frame length and outcome",
                  assumptions=["work bound MaxSteps(frame) = 4*Len(frame)+64 guarded reads", "watchdog 2 s / 1 GiB per program, confirmed by a re-run alone"],
-                 randoms=20000 if run.tier == "quick" else 400000)
+                 randoms=20000 if run.tier == "quick" else 400000, std_readers=10)
 
 
 def stream_count_proof(run):
@@ -309,7 +388,7 @@ def c06(run):
                  "followed by trailing bytes, read by successive ReadPacket calls on one counting reader; every Read request "
                  "must stay within what is known to belong to the current frame (StreamIO!KnownNeed); "
                  "MC_Stream model-checks the reader rules (15 k states, safety + termination)", [],
-                 models=[("MC_Stream", MC_STREAM_CFG)])
+                 models=[("MC_Stream", MC_STREAM_CFG)], std_readers=2)
 
 
 def c07(run):
@@ -319,14 +398,14 @@ def c07(run):
                  "step and the outcome must equal the outcome of the contiguous read; long frames (2- and 3-byte remaining length) "
                  "with chosen splits and zero-length reads; thorough: StreamIOCount inductive invariant by Apalache",
                  assumptions=["D5: same rejection = nil packet and non-nil error", "D6: request sizes free as long as they cannot over-read"],
-                 models=[("MC_Stream", MC_STREAM_CFG)])
+                 models=[("MC_Stream", MC_STREAM_CFG)], std_readers=3)
 
 
 def c08(run):
     return check(run, "C08", {"C08"}, [("fault", TYPE_PARTS)],
                  "every corpus frame x every cut offset k in [0, L] x {EOF, error E} x {with the last bytes, on the next call} x "
                  "fragmentations of the delivered prefix", ["D5: errors.Is(err, E) / errors.Is(err, io.EOF) only"],
-                 level="fault_enumeration", models=[("MC_Stream", MC_STREAM_CFG)])
+                 level="fault_enumeration", models=[("MC_Stream", MC_STREAM_CFG)], std_readers=2)
 
 
 def c09(run):
@@ -336,7 +415,7 @@ def c09(run):
                  "lengths; the specification proves Verdict = reject for each (invariant Theorems2) and the trace specification "
                  "requires ReadPacket to return an error",
                  ["a frame is must-reject only when the first failure of the strict walk is one of the classes (a)-(d)"],
-                 keep=lambda p: p["meta"]["kind"] in ("cut", "undef", "bool", "rlfifth", "vbi5", "badsubid"))
+                 keep=lambda p: p["meta"]["kind"] in ("cut", "undef", "bool", "rlfifth", "vbi5", "badsubid"), std_readers=10)
 
 
 def c10(run):
@@ -349,15 +428,18 @@ def c10(run):
                  "or several Write calls x every writer that stops after K bytes; completed behaviours satisfy the predicate applied to "
                  "the recorded events)",
                  ["D7: writers obey io.Writer (an error whenever fewer bytes are accepted)"],
-                 histories=400 if run.tier == "quick" else 5000, models=[("MC_Write", MC_WRITE_CFG)])
+                 histories=400 if run.tier == "quick" else 5000, models=[("MC_Write", MC_WRITE_CFG)], rich_writers=3)
 
 
 def c11(run):
-    return check(run, "C11", {"C11"}, [("build", TYPE_PARTS), ("own", ONE_PART), ("apifull", 2 if run.tier == "thorough" else 1), ("apidec", 2 if run.tier == "thorough" else 1)],
+    return check(run, "C11", {"C11"}, [("build", TYPE_PARTS), ("own", ONE_PART), ("apifull", 2 if run.tier == "thorough" else 1), ("apidec", 2 if run.tier == "thorough" else 1),
+                                       ("conc", TYPE_PARTS)],
                  BUILD_RULE + "every WriteTo of an unchanged model state must give the bytes of the first one (8 repeats in a "
                  "row plus writes before and after String/Dump/WellFormed), and the accessor record must be unchanged by "
                  "every read-only operation; a third of the programs is executed again in two other worker processes (fresh hash seeds) "
-                 "and the first encodings are compared", [], xproc=0.34)
+                 "and the first encodings are compared; the concurrency configurations of C13 in which some goroutine writes the packet (driver built "
+                 "with -race): every concurrent encoding must equal the sequential one", [], xproc=0.34, conc_apart=True,
+                 keep=lambda pr: pr.get("fam") != "conc" or "WriteTo" in json.dumps(pr["steps"][-2:]))
 
 
 def c12(run):
@@ -381,7 +463,7 @@ def c14(run):
 def c16(run):
     return check(run, "C16", {"C16"}, [("first", TYPE_PARTS), ("frames", TYPE_PARTS)],
                  "all 256 first bytes x bodies that parse for the selected type, plus every valid frame: dynamic type = upper "
-                 "nibble, PUBLISH flags, rewritten first byte", ["D8"], extra_cov={"exhaustive": True})
+                 "nibble, PUBLISH flags, rewritten first byte", ["D8"], extra_cov={"exhaustive": True}, std_readers=4)
 
 
 def c17(run):
